@@ -10,43 +10,43 @@ ROOT = os.path.dirname(os.path.dirname(os.path.abspath(__file__)))
 # id -> (technique, level text, level note, design ref)
 T = {
  "C01": ("exhaustive class-word enumeration + rapid PBT + native fuzz vs reference unstuffing function",
-         "Every word over {'.',CR,LF,x} up to length 8 (quick) / 10 (thorough) plus seeded random 8-bit bodies, under generated segmentations and backend read sizes, in SMTP/LMTP, with a size limit above, at and below the message length (below: only a prefix and never EOF) with a line limit no smaller than the longest LF-delimited stretch, with a pause longer than the server's WriteTimeout in mid-message, after an earlier DATA transaction on the same connection (optionally in the clear before a STARTTLS upgrade), and with the end of the connection reported together with the last octets (n > 0, io.EOF), compared octet for octet with an independent reference (split on CRLF, strip one dot); EOF and its stickiness checked, and a failed reader stays failed when asked again.",
+         "Every word over {'.',CR,LF,x} up to length 8 (quick) / 10 (thorough) plus seeded random 8-bit bodies, under generated segmentations and backend read sizes, in SMTP/LMTP, with a size limit above, at and below the message length (below: only a prefix and never EOF) with a line limit no smaller than the longest LF-delimited stretch, with a pause longer than the server's WriteTimeout in mid-message, after an earlier DATA transaction on the same connection (optionally in the clear before a STARTTLS upgrade, optionally declaring its SIZE), with a declared SIZE that is not too low, and with the end of the connection reported together with the last octets (n > 0, io.EOF), compared octet for octet with an independent reference (split on CRLF, strip one dot); EOF and its stickiness checked, and a failed reader stays failed when asked again.",
          "Reference model ref/unstuff.go; memnet delivers segments exactly as cut; exploration only - streams longer than the bounds are sampled, not enumerated.", "4/C01"),
  "C02": ("rapid PBT + native fuzz over message streams with bait commands and terminator look-alikes; callback-trace and exact reply-stream oracle",
          "Generated message streams containing bait command lines and every end-marker look-alike, crossed with backend read behaviour, verdict, size limit and SMTP/LMTP mode, in plaintext and under TLS, plus stalls past the read timeout and over-long message lines under a small line limit (there only 'nothing of the message is executed' is demanded); oracle: no bait ever reaches a callback, the marker command after the true end marker is executed exactly once and next, and the reply stream is exactly the predicted one.",
          "Markers/baits are recognised by unique addresses; reply stream parsed strictly; exploration.", "4/C02"),
  "C03": ("model-based PBT: generated command histories vs an explicit command-state monitor and callback-trace invariants",
-         "Histories of up to 25 (quick) / 40 (thorough) abstract commands with scripted backend decisions, driven lock-step over memnet; the alphabet includes a STARTTLS whose handshake fails and multi-line backend errors, and a graceful Server.Shutdown may begin at any point of the history (the open connection stays served); a reference monitor (transition table in ref/monitor.go) predicts for each command refusal-without-callback or the exact callback, and trace invariants check Reset/Logout placement, recipient limits and the greeting data seen in NewSession.",
+         "Histories of up to 25 (quick) / 40 (thorough) abstract commands with scripted backend decisions, driven lock-step over memnet, in the clear, across STARTTLS or under implicit TLS (NewSession must see the state of a completed handshake); plain backend errors come in several Go shapes (Temporary, net.Error timeout, wrapped, io.EOF ...); the alphabet includes a STARTTLS whose handshake fails and multi-line backend errors, and a graceful Server.Shutdown may begin at any point of the history (the open connection stays served); a reference monitor (transition table in ref/monitor.go) predicts for each command refusal-without-callback or the exact callback, and trace invariants check Reset/Logout placement, recipient limits and the greeting data seen in NewSession.",
          "Monitor follows the observed reply where the specification leaves a choice (second MAIL, malformed BDAT during a transfer); the delivery goroutine's start is gated in half of the cases; exploration.", "4/C03, Appendix A"),
  "C04": ("metamorphic PBT (pipelined/segmented transcript == lock-step transcript) + strict RFC 5321/2034 reply grammar + gated chunked-transfer schedules with message-id verdict attribution",
-         "The C03 history generator crossed with sending disciplines (one segment, random segmentation, one segment per line or per octet, optionally with the client's half-close arriving together with the last octets); every server octet stream must parse under a strict reply grammar with enhanced codes of the right class, contain exactly the predicted number of replies, and be identical whether commands are sent one by one or pipelined in any segmentation; schedules of gated BDAT deliveries check that each message's final reply reports that message's own verdict.",
+         "The C03 history generator crossed with sending disciplines (one segment, random segmentation, one segment per line or per octet, optionally with the client's half-close arriving together with the last octets); every server octet stream must parse under a strict reply grammar with enhanced codes of the right class, contain exactly the predicted number of replies, and be identical whether commands are sent one by one or pipelined in any segmentation, also with further input behind the command at which the server ends the connection; at a held command boundary (only the first octets of the next line sent) every complete command has been answered; schedules of gated BDAT deliveries check that each message's final reply reports that message's own verdict.",
          "Attribution of replies to commands comes from the lock-step run (server idle detection), not from parsing; exploration.", "4/C04"),
  "C05": ("rapid PBT + native fuzz over chunkings, refusal states and segmentations vs framing arithmetic",
-         "Messages over all 256 octets split into arbitrary BDAT chunkings (zero-size chunks, LAST on empty chunk), with bait commands inside payloads and marker commands after every chunk, in every refusal state and with a backend that fails after k octets (framing-only oracle), sizes optionally with leading zeros, optionally after an earlier chunked transaction on the connection and under a size limit the messages just fit, optionally while a graceful Server.Shutdown is in progress, in plaintext and under TLS, with stalls past the read timeout, under generated segmentations including command+payload in one segment; oracle: one Data call reading the exact concatenation with EOF only after LAST, one reply per BDAT, markers executed exactly once, bait never; plus transfers that never get a LAST chunk (hang-up at or inside a command boundary, reset, QUIT, RSET, greeting, new MAIL): never end-of-file.",
+         "Messages over all 256 octets split into arbitrary BDAT chunkings (zero-size chunks, LAST on empty chunk), with bait commands inside payloads and marker commands after every chunk, in every refusal state (no envelope, no greeting yet, greeting refused by the backend, bad LAST token, over the limit) and with a backend that fails after k octets (framing-only oracle; the client optionally letting the server come to rest between segments), sizes optionally with leading zeros, optionally after an earlier chunked transaction on the connection and under a size limit the messages just fit, optionally while a graceful Server.Shutdown is in progress, in plaintext and under TLS, with stalls past the read timeout, under generated segmentations including command+payload in one segment; oracle: one Data call reading the exact concatenation with EOF only after LAST, one reply per BDAT, markers executed exactly once, bait never; plus transfers that never get a LAST chunk (hang-up at or inside a command boundary, reset, QUIT, RSET, greeting, new MAIL): never end-of-file.",
          "Framing reference is arithmetic on the declared sizes; exploration.", "4/C05"),
  "C06": ("rapid PBT + small-range enumeration, differential against an unlimited server",
          "Limits N in a small range (and around the 4096 buffer in thorough), message sizes N-2..N+2 and far above, by DATA and by every chunking into <=4 BDAT chunks, declared SIZE values around N and around 2^32/2^63, BDAT sizes around 2^31/2^32/2^63/2^64 followed by more than N octets of commands; oracle: octets read <= N, <=N behaves exactly like a server without limit, >N yields reader error + 552 + discarded transaction + marker executed once, SIZE>N refused 552 without callback.",
          "Honest backend (propagates reader errors); plaintext and TLS; content is drawn as wire lines (not only what a conforming dot-stuffer emits) with the limit on line boundaries; optionally after an earlier chunked or DATA transaction on the same connection (completed, RSET, cut by STARTTLS, or refused over the limit); declared SIZE also under HELO, EHLO+HELO, HELO+EHLO and LHLO; exploration.", "4/C06"),
  "C07": ("fault injection at every cut offset of generated conversations (exhaustive per conversation) + abandoning actions",
-         "For each rapid-drawn DATA/BDAT conversation (SMTP and LMTP) the client stream is cut at every byte offset, by clean EOF (reported in a Read of its own or together with the last octets) and by reset; chunks announced with enormous sizes (around 2^31, 2^32, 2^63, 2^64 and beyond) are cut short after 0 or 7 octets; and every abandoning action (RSET, QUIT, new greeting, EOF, idle timeout, an over-limit chunk followed by a fitting LAST chunk) is tried between chunks; oracle: the backend reader reports EOF only if the generator knows the message was complete at that offset and the octets are the full message, otherwise a non-EOF error and no 2xx final reply.",
+         "For each rapid-drawn DATA/BDAT conversation (SMTP and LMTP) the client stream is cut at every byte offset, by clean EOF (reported in a Read of its own or together with the last octets) and by reset; chunks announced with enormous sizes (around 2^31, 2^32, 2^63, 2^64 and beyond) are cut short after 0 or 7 octets; and every abandoning action (RSET, QUIT, new greeting, EOF, idle timeout, an over-limit chunk followed by a fitting LAST chunk) is tried between chunks; oracle: the backend reader reports EOF only if the generator knows the message was complete at that offset and the octets are the full message, otherwise a non-EOF error - also when the backend asks again - and no 2xx final reply; conversations run under the default, no and a 1000-octet line limit.",
          "Cut offsets are exhaustive per conversation, conversations are sampled; idle timeout triggered with a 30 ms ReadTimeout (used as trigger, never as oracle).", "4/C07"),
  "C08": ("fault injection at every cut offset + generated buffered suffixes behind every server-initiated close; begin/end callback-trace and goroutine-dump oracle",
-         "The C07 corpus cut at every offset plus every server-initiated close reason (QUIT, 4th error, over-long line, idle timeout, backend panic; the backend's Logout optionally reporting an error) followed by a generated suffix of commands in the same segment, plus Server.Close/Shutdown landing exactly while a callback of the connection is parked on a gate, and STARTTLS with a successful or a failed handshake followed by more commands; oracle over the totally ordered begin/end trace: exactly one Logout per session after the join, no callback begins after Logout or after the closing event, no new session, no replies after the closing reply, no goroutine with a server-side go-smtp frame left.",
+         "The C07 corpus cut at every offset plus every server-initiated close reason (QUIT, 4th error, over-long line, idle timeout, backend panic; the backend's Logout optionally reporting an error; optionally after AUTH and a second greeting) followed by a generated suffix of commands in the same segment, plus Server.Close/Shutdown landing exactly while a callback of the connection is parked on a gate, and STARTTLS with a successful or a failed handshake followed by more commands; oracle over the totally ordered begin/end trace: exactly one Logout per session after the join, no callback begins after Logout or after the closing event, no new session, no replies after the closing reply, no goroutine with a server-side go-smtp frame left.",
          "Join point is Server.Shutdown; goroutine exit polled with bounded retry; the moment the BDAT delivery goroutine starts is a generated value (verif hook, start gate); exploration.", "4/C08"),
  "C09": ("rapid PBT over TLS state x config x SASL exchange scripts (server) and scripted mechanisms over a real client-server pair (client)",
-         "Server half: generated AUTH exchanges (initial response, '=', bad base64, '*', binary octets, 1-3 challenges) in every TLS/AllowInsecureAuth/backend configuration and surrounding history, against an access model; the recording mechanism must see exactly the base64-decoded octets. Connection faults (half-close, reset, silence past the read timeout) after k of n challenges must never yield 235. Client half: Client.Auth against the real server and against a reference peer that reads the wire strictly by RFC 4954 (and may hang up right after its final reply), with scripted client/server mechanisms; octets cross unaltered, errors cancel with '*', result equals the server's final reply.",
+         "Server half: generated AUTH exchanges (initial response, '=', bad base64, '*', binary octets, 1-3 challenges) in every TLS/AllowInsecureAuth/backend configuration and surrounding history, against an access model; the recording mechanism must see exactly the base64-decoded octets; mechanisms may finish with data for the client (dropped, or sent the RFC 4954 way, where a cancellation still cancels). Connection faults (half-close, reset, silence past the read timeout) after k of n challenges must never yield 235. Client half: Client.Auth against the real server and against a reference peer that reads the wire strictly by RFC 4954 (and may hang up right after its final reply), with scripted client/server mechanisms; octets cross unaltered, errors cancel with '*', result equals the server's final reply.",
          "TLS over memnet with a throw-away certificate; exploration.", "4/C09"),
  "C10": ("rapid PBT over pre-STARTTLS histories with injected plaintext (server) and misbehaving scripted servers (client); backend-trace and plaintext-octet oracles",
          "Server: histories reaching greeted/authenticated/mid-transaction/mid-BDAT state (Logout optionally returning an error), STARTTLS with a plaintext suffix in the same segment, then probes inside TLS (half of them a complete TLS-side transaction whose final replies must be positive, optionally under a size limit each message fits alone); oracle on the backend trace (Logout, new session sees TLS, nothing remembered, suffix never interpreted). Client: NewClientStartTLS/DialStartTLS/SendMail against scripted servers (no STARTTLS, 454, 220+garbage, 220+injected replies, HELO-only or extension-less EHLO inside TLS); oracle on the plaintext octets the client wrote and on the capabilities it reports after the upgrade (Extension, SupportsAuth, MaxMessageSize).",
          "Package-level SendMail runs on 127.0.0.1 sockets with SSL_CERT_FILE pointing at the test certificate; exploration.", "4/C10"),
  "C11": ("grammar-based generation + single-point mutation + exhaustive short strings + native fuzz, judged by an independent three-valued reference grammar",
-         "MAIL/RCPT lines derived from an RFC grammar (all parameters; values put together from pieces: xtext, utf-8-addr-xtext hexpoints at every boundary of the production, NOTIFY lists, sizes, date-times), optionally preceded on the connection by a command of the same verb that the server or the backend refused, single-octet mutations of them, and all short strings over a syntax-significant alphabet, with extension flags on/off, in plaintext and under TLS; an independent classifier says valid (exact mailbox and option struct expected), definitely invalid (5xx, no callback; 504 for disabled extensions) or unspecified (only 'unchanged or refused').",
+         "MAIL/RCPT lines derived from an RFC grammar (all parameters; values put together from pieces: xtext, utf-8-addr-xtext hexpoints at every boundary of the production, NOTIFY lists, sizes, date-times), optionally preceded on the connection by a command of the same verb that the server or the backend refused, or by a whole DATA / BDAT / abandoned transaction, single-octet mutations of them, and all short strings over a syntax-significant alphabet, with extension flags on/off, in plaintext and under TLS; an independent classifier says valid (exact mailbox and option struct expected), definitely invalid (5xx, no callback; 504 for disabled extensions) or unspecified (only 'unchanged or refused').",
          "Classifier ref/grammar.go is the trusted base; its unspecified share is reported; exploration.", "4/C11, Appendix B"),
  "C12": ("complete enumeration of the 7680 configurations vs a capability table, plus one probe per extension and mixed enabled/disabled parameter lines",
-         "All 7680 configurations (size limit none / 1000 / 8 GiB; TLS none / available / active / active through a caller-wrapped listener / available after a failed upgrade) are enumerated in both tiers; the EHLO/LHLO reply must equal the table-derived capability set exactly, HELO must be single-line, every advertised extension's command/parameter must be accepted in upper, lower or alternating case (an ordinary DATA transaction included, after refused lines) and every configuration-disabled parameter refused with 504, also on a line that carries parameters of enabled extensions; the judged greeting is the first on its connection or follows a HELO, a refused greeting, or a HELO with an open transaction.",
+         "All 7680 configurations (size limit none / 1000 / 8 GiB; TLS none / available / active / active through a caller-wrapped listener / available after a failed upgrade) are enumerated in both tiers; the EHLO/LHLO reply must equal the table-derived capability set exactly, HELO must be single-line, every advertised extension's command/parameter must be accepted in upper, lower or alternating case (an ordinary DATA transaction included, after refused lines) and every configuration-disabled parameter refused with 504, also on a line that carries parameters of enabled extensions; under unrelated settings (timeouts, Debug writer, line limit), the client naming itself by a label, a domain or an IPv4 / IPv6 literal; the judged greeting is the first on its connection or follows a HELO, a refused greeting, or a HELO with an open transaction.",
          "Finite space enumerated completely (exhaustive: true); the table is written from the RFCs and the property statement.", "4/C12"),
  "C13": ("rapid PBT (quick) / complete enumeration (thorough) of recipient sequences x status scripts vs a pure function of the script",
-         "Recipient sequences up to 4 over 2 addresses (with RCPT rejections), every subset/order/timing of SetStatus calls, return value, panic, DATA/BDAT, per-recipient or plain backend (the latter also succeeding without reading), multi-line statuses, recipients differing only in case, optionally after an abandoned chunked transfer, optionally with commands that change nothing (NOOP, VRFY, malformed RCPT, refused BDAT, DATA with an argument) between the RCPTs; a sequential client (writes the whole message, then reads) over a transport without buffering (net.Pipe semantics) against backends that return before the end of the message; the i-th final reply must name the i-th accepted recipient and carry the status the script assigns to that occurrence; exactly n replies and the marker command answered next (no deadlock, state-based detection).",
+         "Recipient sequences up to 4 over 2 addresses (with RCPT rejections), every subset/order/timing of SetStatus calls, return value, panic, DATA/BDAT, per-recipient or plain backend (the latter also succeeding without reading), multi-line statuses, recipients differing only in case, optionally after an abandoned chunked transfer, optionally with commands that change nothing (NOOP, VRFY, malformed RCPT, refused BDAT, DATA with an argument) between the RCPTs; a sequential client (writes the whole message, then reads) over a transport without buffering (net.Pipe semantics) against backends that return before the end of the message; the i-th final reply must name the i-th accepted recipient (and nobody else) and carry the status the script assigns to that occurrence; exactly n replies and the marker command answered next (no deadlock, state-based detection).",
          "Misuse of the collector (too many calls, unknown recipient) only checked for liveness and well-formedness; exploration / exhaustive in thorough.", "4/C13"),
  "C14": ("round-trip PBT + native fuzz: real Client -> real Server over memnet, field-by-field equality; per-scalar and short-string enumeration over the encoding alphabet",
          "Every MailOptions/RcptOptions field with generated values, every ASCII octet and sampled (quick) / all (thorough) Unicode scalars in each string-valued option, all short strings over the encoding-significant alphabet, with and without SMTPUTF8, under unrelated server settings (recipient limit, size limit, BINARYMIME, LMTP), with the server's replies delivered in fragments of a few octets, and after connection preludes (AUTH, an earlier transaction, Client.Reset); sender and recipient strings put together from pieces (atoms, quoted strings, brackets, parameter look-alikes, routes, UTF-8, white space at the ends) through Mail/Rcpt and through Client.SendMail with the oracle 'accepted implies observed identically, well-formed implies accepted'; the backend must observe exactly the values passed to the client API, or the client must refuse locally outside the guaranteed domain.",
@@ -58,16 +58,16 @@ T = {
          "All words over {'.',LF,CRLF,x} up to length 6 (quick) / 8 (thorough) plus random 8-bit bodies and messages of long lines whose line endings straddle the client's 4096-octet flush boundary, written in every 2-split, byte-by-byte and random partitions, optionally after an earlier message with its own verdict (whose writer may be closed again in mid-message: error, zero octets), under a server size limit the message just fits, with replies delivered in fragments and over a transport without buffering, with senders/recipients containing '%' and other format characters, with a slow producer against a short CommandTimeout and a short server WriteTimeout; the backend must read the normalised body with the exact envelope once, Close must return the server's verdict, a second Close must be an error with no further octets reaching the server.",
          "Exploration; both ends are go-smtp.", "4/C16"),
  "C17": ("PBT + native fuzz over error shapes through the wire and through the real client; reply codec reference in both directions",
-         "SMTPError values (any code 400-599, enhanced code set/unset/absent, messages from a list of shapes or put together from pieces: line breaks, padding, signed/code-looking/reply-looking tokens, hyphens, non-ASCII) and plain errors returned from NewSession, Mail, Rcpt and Data (DATA or BDAT, optionally under a size limit the message fits exactly and after an earlier transaction with another outcome); greeted with EHLO or HELO, in SMTP and (envelope callbacks) LMTP mode, through Mail/Rcpt/Data or Client.SendMail; the wire reply must carry code, enhanced code and text per RFC 2034 and the client must return an equal SMTPError; plain errors map to 451/554.",
+         "SMTPError values (any code 400-599, enhanced code set/unset/absent, messages from a list of shapes or put together from pieces: lines of several hundred octets, line breaks, padding, signed/code-looking/reply-looking tokens, hyphens, non-ASCII) and plain errors returned from NewSession, Mail, Rcpt and Data (DATA or BDAT, optionally under a size limit the message fits exactly and after an earlier transaction with another outcome); greeted with EHLO or HELO, in SMTP and (envelope callbacks) LMTP mode, through Mail/Rcpt/Data or Client.SendMail; the wire reply must carry code, enhanced code and text per RFC 2034 and the client must return an equal SMTPError; plain errors map to 451/554.",
          "Ambiguous NoEnhancedCode+code-looking-text cases are unspecified; exploration.", "4/C17"),
  "C18": ("model-based PBT: 1-3 LMTP transactions on one client connection vs the scripted per-recipient verdicts",
-         "Generated sequences of LMTP transactions (1-3 recipients, some refused at RCPT, verdict vectors, with and without status callback, optional Reset, verdict codes incl. 421, a locally refused Mail between recipients, optionally a slow delivery to one recipient), and the same client against a scripted LMTP peer that accepts recipients with 250 or 251, may answer in two lines and may hang up together with the last replies (end of stream reported with the last octets); the callback log must equal the script per transaction and Close must return (state-based hang detection) with the right error.",
+         "Generated sequences of LMTP transactions (1-3 recipients, some refused at RCPT, verdict vectors, with a status callback, through Data() or through LMTPData(nil), optional Reset, verdict codes incl. 421, a locally refused Mail between recipients, optionally a slow delivery to one recipient), and the same client against a scripted LMTP peer that accepts recipients with 250 or 251, may answer in two lines and may hang up together with the last replies (end of stream reported with the last octets); the callback log must equal the script per transaction and Close must return (state-based hang detection) with the right error.",
          "Real client against real server in LMTP mode over memnet (replies optionally fragmented, transport optionally without buffering), and against a scripted peer; wall-clock time is used only as a trigger for the slow-delivery cases; exploration.", "4/C18"),
  "C19": ("boundary enumeration of line lengths x positions, exhaustive short byte strings, rapid blobs and native fuzz; oracles: no panic log, length rule, bounded octets consumed, error threshold",
-         "Line lengths L-2..L+3 and 3L at every conversation position for several limits, endless lines (octets consumed measured on memnet, with and without a Debug writer attached), all strings up to length 4 (quick) / 5 (thorough) over {NUL,CR,LF,SP,A,a,:,<,0xFF,0xE9} and two more lengths over {0xFF,SP,A,LF} as command lines, random blobs, and error-threshold mixes (optionally with a STARTTLS upgrade in between).",
+         "Line lengths L-2..L+3 and 3L at every conversation position for several limits, endless lines (octets consumed measured on memnet, with and without a Debug writer attached), all strings up to length 4 (quick) / 5 (thorough) over {NUL,CR,LF,SP,A,a,:,<,0xFF,0xE9} and two more lengths over {0xFF,SP,A,LF} as command lines, every verb with an argument that is blank in some sense (Unicode / C / ASCII white space, NUL) in four states, random blobs, and error-threshold mixes (optionally with a STARTTLS upgrade in between, optionally while a chunked transfer is open).",
          "Bounded buffering measured as octets consumed from the network before the server gives up; a death of the test process on library code is reported as a violation with the running case as replay (all checks); exploration.", "4/C19"),
  "C20": ("harness-ordered event schedules executed under the Go race detector + exhaustive Accept fault sequences",
-         "Generated orders of harness-controlled events (delivery completes, RSET/next chunk/QUIT, disconnect, Close, Shutdown, context expiry) for chunked and LMTP transfers and pending TLS handshakes on 1-3 connections, each executed under -race; Accept fault sequences up to length 5 enumerated completely; Close against clients that do nothing (silent or mid-handshake connections, two listeners, a listener the application closed first) enumerated completely; oracle: no race report, no state-based deadlock (including Server.Close sitting on a lock while no callback is in progress), no leftover goroutine, Close/Shutdown/Serve return values.",
+         "Generated orders of harness-controlled events (delivery completes, RSET/next chunk/QUIT, disconnect, Close, Shutdown, context expiry) for chunked and LMTP transfers and pending TLS handshakes on 1-3 connections, each executed under -race; deliveries optionally panic when their transfer is abandoned; Accept fault sequences up to length 5 enumerated completely, and pairs of listeners with temporary errors at the same time; Close against clients that do nothing (silent or mid-handshake connections, two listeners, a listener the application closed first) enumerated completely; oracle: no race report, no state-based deadlock (including Server.Close sitting on a lock while no callback is in progress), no leftover goroutine, Close/Shutdown/Serve return values.",
          "The harness owns its own event order (including, through the verif hook, when the BDAT delivery goroutine starts), not the Go scheduler inside the library; races are only seen on executed schedules; exploration.", "4/C20, 6"),
 }
 
